@@ -12,4 +12,13 @@ for s in $SETS; do
   ( "$VERIF_GEN_BIN" "gen/$s" "gen/$s/manifest.in.json" "$DEP" > "gen/$s/gen.log" 2>&1 || { echo "generator failed on set $s:"; tail -15 "gen/$s/gen.log"; exit 1; } ) &
 done
 for j in $(jobs -p); do wait "$j" || fail=1; done
+# root-module (v1) bindings of the same schema sets (types only), when the driver asked for them (NEEDS_GEN1)
+if [ -n "${VERIF_GEN1_BIN:-}" ]; then
+  rm -rf genr; mkdir -p genr
+  RSETS=$(go run ./cmd/corpusgen -rootgen -out genr -root verifh/genr -seed "$VERIF_SEED" -sets "$NSETS" -maxtypes "$MAXTYPES")
+  for s in $RSETS; do
+    ( "$VERIF_GEN1_BIN" "genr/$s" "verifh/genr/$s" "genr/$s/manifest.in.json" > "genr/$s/gen.log" 2>&1 || { echo "root generator failed on set $s:"; tail -15 "genr/$s/gen.log"; exit 1; } ) &
+  done
+  for j in $(jobs -p); do wait "$j" || fail=1; done
+fi
 exit $fail
